@@ -292,8 +292,72 @@ func engIndex(e *Env) {
 		e.count("unique_probe")
 	}
 	// SCase = QCase compared as a set of document numbers
+	compositeSweep(e, ctx, x, r)
 	writeQueryCases(e, qcases, nil)
 	sort.Strings(e.Res.Notes)
+}
+
+// compositeSweep: for every field kind as SECOND field of a composite index (the first field is served by the key
+// range, the later ones by per-key matchers), every comparison operator with a bound taken from the stored values
+// (ties included): the indexed twin must return the documents the plain twin returns.
+func compositeSweep(e *Env, ctx context.Context, x *Nd, r *Rng) {
+	type kind struct {
+		name, gql string
+		pool      []string
+	}
+	kinds := []kind{
+		{"dt", "DateTime", []string{`"2020-01-01T00:00:00Z"`, `"2020-01-02T00:00:00Z"`, `"2020-01-02T00:00:00.5Z"`, `"2021-06-30T12:00:00Z"`}},
+		{"in", "Int", []string{"-3", "0", "1", "7"}},
+		{"fl", "Float", []string{"-1.5", "0.0", "0.25", "9.75"}},
+		{"st", "String", []string{`"a"`, `"ab"`, `"b"`, `""`}},
+		{"bo", "Boolean", []string{"true", "false"}},
+	}
+	for ki, kd := range kinds {
+		for _, dir := range []string{"ASC", "DESC"} {
+			p, xn := fmt.Sprintf("CP%d%s", ki, dir), fmt.Sprintf("CX%d%s", ki, dir)
+			x.addSchema(ctx, fmt.Sprintf(`type %s { k: Int cat: String v: %s }`, p, kd.gql))
+			x.addSchema(ctx, fmt.Sprintf(`type %s @index(includes: [{field: "cat"}, {field: "v", direction: %s}]) { k: Int cat: String v: %s }`, xn, dir, kd.gql))
+			k := 0
+			for _, cat := range []string{`"x"`, `"y"`} {
+				for _, v := range append(append([]string{}, kd.pool...), "null", kd.pool[0]) {
+					k++
+					for _, col := range []string{p, xn} {
+						if _, errs := x.gql(ctx, fmt.Sprintf(`mutation { create_%s(input: {k: %d, cat: %s, v: %s}) { _docID } }`, col, k, cat, v)); errs != "" {
+							e.violate("harness-index", errs, nil)
+						}
+					}
+				}
+			}
+			for _, op := range []string{"_eq", "_ne", "_gt", "_ge", "_lt", "_le"} {
+				for _, bound := range append(append([]string{}, kd.pool...), "null") {
+					if bound == "null" && op != "_eq" && op != "_ne" {
+						continue
+					}
+					if kd.gql == "Boolean" && op != "_eq" && op != "_ne" {
+						continue
+					}
+					get := func(col string) (string, string) {
+						d, errs := x.gql(ctx, fmt.Sprintf(`query { %s(filter: {cat: {_eq: "x"}, v: {%s: %s}}) { k } }`, col, op, bound))
+						var ks []int
+						for _, row := range rowsOf(d, col) {
+							n, _ := numOf(row["k"])
+							ks = append(ks, int(n))
+						}
+						sort.Ints(ks)
+						return fmt.Sprint(ks), errs
+					}
+					a, ea := get(p)
+					b, eb := get(xn)
+					e.Res.Evaluations++
+					e.count("composite_second_field_" + kd.gql)
+					e.distinct(fmt.Sprintf("composite|%s|%s|%s|%s", kd.gql, dir, op, bound))
+					if a != b || ea != eb {
+						e.violate("index-composite-second-field", fmt.Sprintf("composite index (cat, v:%s %s), filter cat = x and v %s %s: indexed collection returns k=%s %s, plain collection k=%s %s", kd.gql, dir, op, bound, b, eb, a, ea), map[string]any{"kind": kd.gql, "direction": dir, "op": op, "bound": bound})
+					}
+				}
+			}
+		}
+	}
 }
 
 func init() { engines["index"] = engIndex }
